@@ -44,6 +44,13 @@ func CheckQueueCrashImages(r *QRunner, cp CrashParams, st *CrashStats) (v *Viola
 		if v != nil {
 			return
 		}
+		if cp.MaxImages > 0 && imgNo >= cp.MaxImages {
+			if imgNo == cp.MaxImages {
+				st.Capped++
+				imgNo++
+			}
+			return
+		}
 		if spec.K != lastK {
 			lastK = spec.K
 			st.Positions++
